@@ -49,6 +49,7 @@ pub fn contexts(w: i32, h: i32, quick: bool) -> Vec<(&'static str, Vec<Op>, Vec<
         ("clip-path", vec![Op::PushClip(tri.clone())], vec![Op::PopClip]),
         ("layer@(1,0)", vec![Op::PushClipRect(1, 0, w, h), Op::PushLayer(1.0, BlendMode::SrcOver)], vec![Op::PopLayer, Op::PopClip]),
     ];
+    v.push(("layer-then-outer-clip-popped", vec![Op::PushClipRect(1, 1, w - 1, h), Op::PushLayer(1.0, BlendMode::SrcOver), Op::PopClip], vec![Op::PopLayer]));
     if !quick {
         v.push(("clip-path-x2", vec![Op::PushClip(tri.clone()), Op::PushClip(tri2.clone())], vec![Op::PopClip, Op::PopClip]));
         v.push(("clip-path+layer(0.5)", vec![Op::PushClip(tri.clone()), Op::PushLayer(0.5, BlendMode::SrcOver)], vec![Op::PopLayer, Op::PopClip]));
